@@ -25,6 +25,7 @@ Fixpoint lookup (env : denv) (n : string) : option dval :=
 Definition bind (env : denv) (n : string) (v : dval) : denv := (n, v) :: env.
 
 (* value expressions: what the compiler evaluates at expansion time *)
+Inductive setk := SUnion | SInter | SDiff.
 Inductive iex :=
 | INum (x : xq)
 | IVar (n : string)
@@ -35,7 +36,8 @@ Inductive iex :=
 | IEnumerate (a : iex)
 | INodes (g : iex)
 | IEdges (g : iex)
-| INeighEdges (v : iex).
+| INeighEdges (v : iex)
+| ISet (k : setk) (a b : iex).              (* union / intersection / difference of two arrays of numbers *)
 
 Definition whole (x : xq) : option Z :=
   match x with Fin q => if Qeq_bool (inject_Z (Qfloor q)) q then Some (Qfloor q) else None | _ => None end.
@@ -48,6 +50,16 @@ Fixpoint zrange (n : nat) (lo : Z) : list dval :=
 Fixpoint enum_from (i : Z) (l : list dval) : list dval :=
   match l with [] => [] | x :: xs => DTuple [x; znum i] :: enum_from (i + 1)%Z xs end.
 
+(* array_functions.rs: union keeps the first occurrence of every value of a ++ b; intersection / difference filter a *)
+Definition num_mem (x : xq) (l : list dval) : bool :=
+  existsb (fun d => match d with DNum y => xq_eqb x y | _ => false end) l.
+Fixpoint dedup_nums (l acc : list dval) : list dval :=
+  match l with
+  | [] => acc
+  | DNum x :: r => if num_mem x acc then dedup_nums r acc else dedup_nums r (acc ++ [DNum x])
+  | d :: r => dedup_nums r (acc ++ [d])
+  end.
+Definition all_nums (l : list dval) : bool := forallb (fun d => match d with DNum _ => true | _ => false end) l.
 Fixpoint ieval (env : denv) (e : iex) : option dval :=
   match e with
   | INum x => Some (DNum x)
@@ -79,6 +91,18 @@ Fixpoint ieval (env : denv) (e : iex) : option dval :=
   | INodes g => match ieval env g with Some (DGraph ns) => Some (DList (map (fun p => DNode (fst p) (snd p)) ns)) | _ => None end
   | IEdges g => match ieval env g with Some (DGraph ns) => Some (DList (map edge_val (flat_map snd ns))) | _ => None end
   | INeighEdges v => match ieval env v with Some (DNode _ es) => Some (DList (map edge_val es)) | _ => None end
+  | ISet k a b =>
+      match ieval env a, ieval env b with
+      | Some (DList la), Some (DList lb) =>
+          if all_nums la && all_nums lb then
+            Some (DList (match k with
+                         | SUnion => dedup_nums (la ++ lb) []
+                         | SInter => filter (fun d => match d with DNum x => num_mem x lb | _ => false end) la
+                         | SDiff => filter (fun d => match d with DNum x => negb (num_mem x lb) | _ => false end) la
+                         end))
+          else None
+      | _, _ => None
+      end
   end.
 
 (* ---------- iteration: `for p1 in it1, p2 in it2, ...` ; the first is the outermost loop *)
